@@ -167,12 +167,12 @@ pub fn generate(rng: &mut Rng, tier: &str, _idx: u64) -> Scenario {
         3 => -5,
         4 => 9999,
         5 => 1,
-        6 => min_year() + 1,
-        7 => max_year() - 1 - span,
+        6 => min_year(),
+        7 => max_year() - span,
         8 => -(span / 2),
         _ => 1990 + rng.range(0, 60) as i32,
     }
-    .clamp(min_year() + 1, max_year() - 1 - span);
+    .clamp(min_year(), max_year() - span);
     let faults = !rng.chance(1, 4);
     let rate = |rng: &mut Rng| -> u64 { *rng.pick(&[0, 0, 4, 16, 32]) };
     let cfg = Cfg {
